@@ -476,7 +476,14 @@ func runSimCheck(id, tier string, seed uint64, p propInfo, scratch string, start
 		var code int
 		raceCov, raceReported, code = runRacePhase(id, tier, seed, scratch, kf, knownHit)
 		if code == 2 {
-			return 2
+			if len(reported) == 0 {
+				return 2
+			}
+			// The simulated phase has already produced confirmed, replayable
+			// violations (e.g. a deadlock, which also hangs the real goroutines
+			// of race mode): they stand; race mode contributes nothing this time.
+			fmt.Fprintln(os.Stderr, "falcosim: race mode did not complete; the violations of the simulated phase are reported without it")
+			raceCov = map[string]any{"completed": false}
 		}
 		reported = append(reported, raceReported...)
 	}
